@@ -33,11 +33,13 @@ differentials: ONE request and 500-sample chunks from an identically seeded twin
 Lifecycle part (both tiers): the generator is obtained through get_similar_fading_generator()
 of a parent at positions 1, 8, 1e6+1, 3501, or through the shape setter after generate(7) /
 skip(1e6), or the constructor; a second live generator (the parent, else an independent one)
-is used alternately (b_generate / b_skip; a request on one object must leave the digest of the
-other unchanged); invalid requests generate(2.5 / "3"), skip(None), shape = "x" / (-1,) / (2.5,)
-must - if they raise - leave the object field-for-field unchanged (later requests are then
-checked by the usual oracle); generate(0 / -1), skip(-5) are outside the domain: accepted ->
-terminal state, only recorded.  Depth 3 (thorough 4), 2 configurations x 7 roots.
+is used alternately (b_generate / b_skip; a valid request on one object must leave the digest of
+the other unchanged); invalid calls generate(2.5 / "3" / 0 / -1), skip(None / -5), shape = "x" /
+(-1,) / (2.5,) are free as calls (tools/INVALID_CALL_POLICY.md): raise / accept / object change are
+recorded as outcomes; afterwards position, shape and phases are re-read from the generator's
+reported state, which must be an integer position and a shape agreeing with the phases, and every
+later VALID request is judged by the usual oracle from there (after_invalid_call|...).
+Depth 3 (thorough 4), 2 configurations x 7 roots.
 Function part: generate_jakes_samples with explicit current_time (6 start positions x chains of
 two calls, n in {1,7,100,4097}) - shape, returned time, values.  RayleighSampleGenerator: shape /
 count clause only (generate, skip, shape setter, get_similar_fading_generator).
@@ -251,7 +253,7 @@ def jakes_reference(cfg, phi, psi, k0, n):
 
 
 def value_tol(cfg, k_end):
-    dt = (REL_T * k_end + ABS_T) * cfg["Ts"]
+    dt = (REL_T * abs(k_end) + ABS_T) * cfg["Ts"]
     return 2.0 * math.pi * cfg["Fd"] * math.sqrt(cfg["L"]) * dt + ABS_V
 
 
@@ -361,6 +363,9 @@ def check_state(chk, cfg, hist, st, case=None):
                      observed=s.ravel()[:3], expected=st.s0.ravel()[:3])
     # ---- differential: identically seeded generator, stretch obtained directly ----
     one_max = DIFF_ONE_REQUEST_MAX_BLOCK if cfg.get("block") else DIFF_ONE_REQUEST_MAX
+    if cfg.get("no_twins"):
+        chk.count("excluded_twin_differentials_after_object_changing_invalid_call")
+        return
     if k0 + n <= one_max:
         f = new_generator(cfg)
         f.generate_more_samples(k0 + n - ks)          # positions ks .. k0+n-1 in ONE request
@@ -459,8 +464,9 @@ class LState:
         self.hist_a = self.hist_b = ()
         self.last = None              # "a" / "b": whose request the last event was
         self.problem = None           # (signature, observed, expected)
-        self.terminal = False         # out-of-domain request accepted: nothing is defined afterwards
-        self.note = None              # outcome of the last invalid / out-of-domain request
+        self.note = None              # outcome of the last invalid call (tools/INVALID_CALL_POLICY.md)
+        self.spec_a = None
+        self.after_invalid = None     # the first invalid call of the history, if any
 
 
 def _view(g, phi, psi, s0, k):
@@ -476,6 +482,7 @@ def build_life(cfg, hist):
         g = d["g"]
         st.a = _view(g, np.array(g._phi_l, dtype=float, copy=True), np.array(g._psi_l, dtype=float, copy=True),
                      np.array(g.get_samples(), copy=True), cfg["k_start"])
+        st.spec_a = dict(cfg)
         if d["parent"] is not None:
             # the second live object is the parent the generator was derived from
             pre = sum(n for _, n in cfg["root"][1])
@@ -513,7 +520,7 @@ def build_life(cfg, hist):
             raised = None
         except Exception as e:  # noqa
             raised = e
-        if _digest(other.g) != other_before:
+        if valid and _digest(other.g) != other_before:
             st.problem = (("live_objects", "request_on_one_generator_changes_the_other", base),
                           "%s(%r) on one generator changed the other one" % (base, n), "independent objects")
             return st
@@ -526,20 +533,50 @@ def build_life(cfg, hist):
                 st.hist_b += ((base, n),)
             else:
                 st.hist_a += ((base, n),)
-        elif raised is None:
-            st.terminal = True
-            st.note = ("accepted", base, repr(n))
-            return st
         else:
-            st.note = ("raised_" + type(raised).__name__, base, repr(n))
-            if _digest(o.g) != before:
-                what = "invalid_shape" if base == "set_shape" else "invalid_n"
-                st.problem = (("error_path", base if base != "set_shape" else "shape_setter",
-                               what + "_raises_but_object_changed"),
-                              "%s(%r) raised %s and left the object changed" % (base, n, type(raised).__name__),
-                              "object field-for-field unchanged after the exception")
+            # An invalid call is free as a call (raise / accept / change the object): outcome only.
+            what = "%s(%s)" % (base, type(n).__name__ if not isinstance(n, (int, float)) else repr(n))
+            changed = _digest(o.g) != before
+            st.note = (what, "accepted" if raised is None else "raised:" + type(raised).__name__,
+                       "object_changed" if changed else "object_unchanged")
+            if st.after_invalid is None:
+                st.after_invalid = what
+            # ... but the generator must still be a coherent instance: re-read position, shape and phases
+            # from what it reports and go on judging every later VALID request from there.
+            spec = st.spec_b if on_b else st.spec_a
+            prob = resync(o, spec, what, changed)
+            if prob is not None:
+                st.problem = prob
                 return st
     return st
+
+
+def resync(o, spec, what, changed):
+    """re-synchronise the reference model of one generator from its reported state after an invalid call;
+    returns a problem tuple if that state is not a coherent generator"""
+    g = o.g
+    pos = g._current_time / g.Ts
+    k = int(round(pos))
+    if not abs(pos - k) <= REL_T * abs(k) + ABS_T:
+        return (("after_invalid_call", what, "generator_left_at_non_integer_position"),
+                "position %r samples" % pos, "an integer sample position")
+    shape = g.shape
+    try:
+        dims = (g.L,) + shape_tuple(shape) + (1,)
+        ok = all(isinstance(x, (int, np.integer)) and x >= 0 for x in shape_tuple(shape)) and \
+            np.shape(g._phi_l) == dims and np.shape(g._psi_l) == dims
+    except Exception:  # noqa
+        ok = False
+    if not ok:
+        return (("after_invalid_call", what, "reported_shape_disagrees_with_phases"),
+                "shape %r, phases %r" % (shape, np.shape(g._phi_l)), "phases of shape (L,) + shape + (1,)")
+    o.k = k
+    spec["shape"] = shape
+    if changed:
+        o.phi = np.array(g._phi_l, dtype=float, copy=True)
+        o.psi = np.array(g._psi_l, dtype=float, copy=True)
+        spec["no_twins"] = True       # an identically seeded twin no longer describes this object
+    return None
 
 
 def _listify(x):
@@ -560,13 +597,14 @@ def check_life(chk, cfg, hist, st):
     case = life_case(cfg, hist)
     chk.count("eval_lifecycle_states")
     chk.outcome("lifecycle_root", (cfg["root"][0], len(cfg["root"]) > 1 and repr(cfg["root"][-1])))
+    if st.note is not None:
+        chk.outcome("invalid_call", st.note)
+        chk.count("eval_invalid_calls")
     if st.problem is not None:
         sig, obs, exp = st.problem
         chk.fail(sig, case, observed=obs, expected=exp)
         return
     if st.note is not None:
-        chk.outcome("invalid_request", st.note)
-        chk.count("eval_invalid_requests")
         return
     if not hist:
         # the derived generator: configuration of the parent, sample 0 of its own process
@@ -574,11 +612,25 @@ def check_life(chk, cfg, hist, st):
         if cfg["root"][0] != "similar":
             check_state(chk, st.spec_b, (), st.b, case=case)
         return
+    c = chk if st.after_invalid is None else AfterInvalid(chk, st.after_invalid)
     if st.last == "a":
-        check_state(chk, cfg, st.hist_a, st.a, case=case)
+        check_state(c, st.spec_a, st.hist_a, st.a, case=case)
     else:
         chk.count("eval_second_live_object")
-        check_state(chk, st.spec_b, st.hist_b, st.b, case=case)
+        check_state(c, st.spec_b, st.hist_b, st.b, case=case)
+
+
+class AfterInvalid:
+    """violations found after an invalid call get the signature after_invalid_call|<what>|<relation>"""
+    def __init__(self, chk, what):
+        self._chk, self._what = chk, what
+
+    def __getattr__(self, name):
+        return getattr(self._chk, name)
+
+    def fail(self, sig, case, observed=None, expected=None, msg=""):
+        self._chk.fail(("after_invalid_call", self._what, ".".join(str(x) for x in sig)), case,
+                       observed=observed, expected=expected, msg=msg)
 
 
 def run_life(chk, cfg, depth):
@@ -588,7 +640,7 @@ def run_life(chk, cfg, depth):
         return build_life(cfg, hist)
 
     def enabled(hist, st):
-        if st.problem is not None or st.terminal or st.a is None or st.a.err is not None or st.b.err is not None:
+        if st.problem is not None or st.a is None or st.a.err is not None or st.b.err is not None:
             return []
         if len(hist) + 1 >= depth:
             # the last event of a history is only useful when it observes something
@@ -602,7 +654,7 @@ def run_life(chk, cfg, depth):
     def canon(hist, st):
         if st.problem is not None or st.a is None:
             return ("failed", hist)
-        return (st.a.k, st.b.k, st.terminal, st.note, _digest(st.a.g), _digest(st.b.g))
+        return (st.a.k, st.b.k, st.note, st.after_invalid, _digest(st.a.g), _digest(st.b.g))
 
     bfs.BFS(chk, b, enabled, invariant, canon, depth, label="life%d" % cfg["index"]).run([()])
 
@@ -787,7 +839,7 @@ def main(chk: Check):
         chk.require_outcomes("position_decade", 6)
         chk.require_outcomes("generate_result", 20)
         chk.require_outcomes("lifecycle_root", 7)
-        chk.require_outcomes("invalid_request", 6)
+        chk.require_outcomes("invalid_call", 6)
         chk.require_outcomes("function_call", 12)
         chk.require_outcomes("rayleigh", 6)
 
